@@ -314,9 +314,9 @@ def _impl_sig(text: str):
 
 
 def _f47_shape(c: dict) -> bool:
-    """F47's input feature: a client COROUTINE whose signature mentions `AsyncIterator` only inside a longer type name
-    (`AsyncIteratorResult`).  A method that is really annotated `AsyncIterator[...]` (a stream) and is not an async generator is a
-    different defect and is not absorbed by that finding."""
+    """The input feature of F47 (repaired - a failure of this shape is a recurrence): a client COROUTINE whose signature mentions
+    `AsyncIterator` only inside a longer type name (`AsyncIteratorResult`).  A method that is really annotated `AsyncIterator[...]`
+    (a stream) and is not an async generator is a different defect."""
     import re
     sig = str(c.get("sig"))
     return c.get("nature") == "coroutine" and bool(re.search(r"AsyncIterator\w", sig)) and not re.search(r"\bAsyncIterator\[", sig)
@@ -964,7 +964,7 @@ def _evaluate(doc: dict, root: str, scratch: str) -> tuple[int, list[dict]]:
             if k["sig"] != c["sig"]:
                 fail("mock-signature", {"module": m, "method": name, "mock": k["sig"], "client": c["sig"]}, "equal")
             if k["nature"] != c["nature"]:
-                # F47 is recorded for signatures that MENTION `AsyncIterator` in a type NAME (AsyncIteratorResult) only
+                # the class of F47 (repaired): signatures that MENTION `AsyncIterator` in a type NAME (AsyncIteratorResult) only
                 f47 = _f47_shape(c)
                 fail("mock-asyncgen-nature" if f47 else "mock-nature-differs", {"module": m, "method": name, "mock": k["nature"], "client": c["nature"]}, "equal")
             elif not k["call"].startswith("NotImplementedError:"):
@@ -987,7 +987,7 @@ def _evaluate(doc: dict, root: str, scratch: str) -> tuple[int, list[dict]]:
 
 
 # defect classes proved as `_counterexample` in Pog/Props/C13.lean (expected on the unchanged tree)
-EXPECTED_CLASSES = ["mock-groups-by-first-raw-tag", "mock-tag-case-variants-collide", "mock-asyncgen-nature", "protocol-async-dropped"]
+EXPECTED_CLASSES = ["mock-groups-by-first-raw-tag", "mock-tag-case-variants-collide"]     # F47's two classes are repaired
 
 
 def _witness_docs() -> list[dict]:
